@@ -50,6 +50,7 @@ def content? : Sexp → Option Content
 
 def op? : Sexp → Option Op
   | .list [.atom "SEL", .list rs] => do let rs ← rs.mapM res?; pure (.select rs)
+  | .atom "SELFAIL" => some .selectFail
   | .atom "invert" => some .invert
   | .atom "end" => some .endSel
   | .atom "empty" => some .empty
